@@ -328,6 +328,49 @@ Section Coherence.
     destruct r2; auto. destruct (match lookup (k_id c) (reg s) with Some b => _ | None => None end); auto.
   Qed.
 
+  (* as_obj: the forced-id branch overwrites the ID of the node just built - no digest reads an id *)
+  Lemma kd_of_ext hp hp' ks :
+    (forall k, option_map (fun c => (k_cid c, ofqn (k_org c))) (nth_error hp k)
+               = option_map (fun c => (k_cid c, ofqn (k_org c))) (nth_error hp' k)) -> kd_of hp ks = kd_of hp' ks.
+  Proof.
+    intro E. unfold kd_of. apply map_ext. intro k. f_equal. f_equal. apply map_ext. intro x. specialize (E x).
+    destruct (nth_error hp x), (nth_error hp' x); simpl in E; congruence.
+  Qed.
+  Lemma nth_error_firstn_ge {A} (l : list A) a k : a <= k -> nth_error (firstn a l) k = None.
+  Proof. intro. apply nth_error_None. rewrite firstn_length. lia. Qed.
+  Lemma with_id_coh hp a cl i : coh H ct hp -> nth_error hp a = Some cl -> coh H ct (set_nth a (with_id cl i) hp).
+  Proof.
+    intros Hc Ea x cx Hx.
+    assert (Hkd : forall ks, kd_of (firstn x (set_nth a (with_id cl i) hp)) ks = kd_of (firstn x hp) ks).
+    { intro ks. apply kd_of_ext. intro k. destruct (Nat.lt_ge_cases k x) as [Hk|Hk].
+      - rewrite !nth_error_firstn_lt by auto. destruct (Nat.eq_dec a k) as [->|Hne].
+        + rewrite set_nth_same by (apply nth_error_Some; congruence). rewrite Ea. reflexivity.
+        + now rewrite set_nth_other.
+      - rewrite !nth_error_firstn_ge by auto. reflexivity. }
+    rewrite Hkd. destruct (Nat.eq_dec a x) as [->|Hne].
+    - rewrite set_nth_same in Hx by (apply nth_error_Some; congruence). injection Hx as <-.
+      cbn [with_id k_cid k_cls k_props k_kids]. now apply Hc.
+    - rewrite set_nth_other in Hx by auto. now apply Hc.
+  Qed.
+  Lemma deser_coh fx : forall fuel s v, coh H ct (heap s) -> coh H ct (heap (dstate (deser H ct late fx fuel s v) s)).
+  Proof.
+    induction fuel as [|f IH]; simpl; intros s v Hs; auto. destruct v as [i c o ps ks].
+    destruct (lookup i (reg s)); auto.
+    assert (H1 : coh H ct (heap (dstate (mapM_d (fun s k => match mapM_d (deser H ct late fx f) s (snd (snd k)) with
+                                 | DOk s' l => DOk s' (fst k, (fst (snd k), l))
+                                 | DLate s' => DLate s'
+                                 | DFuel => DFuel
+                                 end) s ks) s))).
+    { apply mapM_d_coh; auto. intros t k Ht. pose proof (mapM_d_coh (deser H ct late fx f) IH (snd (snd k)) t Ht) as M.
+      destruct (mapM_d (deser H ct late fx f) t (snd (snd k))); exact M. }
+    destruct (mapM_d _ s ks) as [s1 ks'|s1|]; simpl in *; auto.
+    pose proof (construct_coh s1 c o ps ks' H1) as H2.
+    destruct (construct H ct late s1 c o ps ks') as [s2 a|s2|]; simpl in *; auto.
+    destruct (cell_at s2 a) as [cl|] eqn:Ec; simpl; auto.
+    destruct (pystr_eqb (k_id cl) i); simpl; auto.
+    destruct (force_id_cases fx s2 a cl i) as [-> | ->]; auto. simpl. now apply with_id_coh.
+  Qed.
+
   Lemma bind_heap dst r : heap (fst (bind dst r)) = heap (fst r).
   Proof. destruct r as [s1 [| a | b | e | | |]]; reflexivity. Qed.
 
@@ -335,7 +378,7 @@ Section Coherence.
   Proof.
     intro Hs. unfold step. destruct (step_raw H ct late fx s o) as [s' r] eqn:E. simpl.
     replace s' with (fst (step_raw H ct late fx s o)) by now rewrite E. clear E.
-    destruct o as [dst c og ps ks|dst src|dst src ch|dst src ch|x|x|v|x k]; simpl; auto.
+    destruct o as [dst c og ps ks|dst src|dst src ch|dst src ch|x|x|v|x k|src slot|slot dst]; simpl; auto.
     - destruct (negb _); auto. destruct (new_args ct s c ps ks); auto.
       pose proof (construct_coh s c og ps x Hs) as M. destruct (construct H ct late s c og ps x); simpl in *; auto.
     - destruct (negb _); auto. destruct (resolve s src) as [a|]; auto.
@@ -350,6 +393,10 @@ Section Coherence.
     - destruct (resolve s x) as [a|]; auto. destruct (detach_self_frame fx s a) as [Hh _].
       destruct (detach_self fx s a). simpl in *. now rewrite Hh.
     - destruct (resolve s x); auto.
+    - destruct (resolve s src) as [a|]; auto. destruct (ser_st s a); auto.
+    - destruct (negb _); auto. destruct (slot_get slot (slots s)) as [v|]; auto.
+      pose proof (deser_coh fx (S (sdepth v)) s v Hs) as M. unfold asobj.
+      destruct (deser H ct late fx (S (sdepth v)) s v); simpl in *; auto.
   Qed.
   Theorem run_coh fx l : forall s, coh H ct (heap s) -> coh H ct (heap (run H ct late fx s l)).
   Proof. induction l as [|o l IH]; simpl; auto. intros s Hs. apply IH. now apply step_coh. Qed.
